@@ -156,7 +156,12 @@ func (c *fn) expr(e ast.Expr) cx {
 				c.g.note(c.fi.label + ": &" + id.Name + " passes a snapshot of the variable (no aliasing)")
 				return c.lift([]cx{c.expr(inner)}, func(v []string) string { return "(PNew " + v[0] + ")" })
 			}
-			c.fail(x, "address-of is only supported on composite literals and local struct variables")
+			if _, ok := inner.(*ast.SelectorExpr); ok && c.rootIdent(inner) != nil && c.kindOf(inner) != kPtr && c.kindOf(inner) != kMap {
+				// &x.f.g: a pointer to the current value of the field (no identity, writes through it are refused elsewhere)
+				c.g.note(c.fi.label + ": & of a field path makes a pointer to a snapshot of the field (no aliasing)")
+				return c.lift([]cx{c.expr(inner)}, func(v []string) string { return "(PNew " + v[0] + ")" })
+			}
+			c.fail(x, "address-of is only supported on composite literals, local struct variables and field paths")
 		}
 		c.fail(x, "unary operator %s is not supported", x.Op)
 	case *ast.StarExpr:
@@ -168,9 +173,16 @@ func (c *fn) expr(e ast.Expr) cx {
 	case *ast.CompositeLit:
 		return c.compositeLit(x)
 	case *ast.FuncLit:
-		c.fail(x, "function literals are not supported")
+		r, isOpt := c.funcLit(x)
+		if isOpt {
+			c.fail(x, "a function literal that may panic is only supported when it is assigned to a local variable")
+		}
+		return r
 	case *ast.TypeAssertExpr:
-		c.fail(x, "type assertions are not supported")
+		fnName, ty := c.assertion(x)
+		return c.liftO([]cx{c.expr(x.X)}, func(v []string) cx {
+			return cx{s: "(" + fnName + "_opt " + CStr(ty) + " " + v[0] + ")", opt: true}
+		})
 	}
 	c.fail(e, "expression %T is not in the GoLite subset", e)
 	return cx{}
@@ -201,7 +213,7 @@ func (c *fn) ident(id *ast.Ident) cx {
 		c.fail(id, "nil in a position where its type is not determined")
 	case *types.Var:
 		if c.isLocal(v) {
-			if c.g.kind(v.Type(), c.sub) == kDropped {
+			if c.g.kind(v.Type(), c.sub) == kDropped || c.droppedObj[v] {
 				c.fail(id, "use of the dropped value %s", id.Name)
 			}
 			if c.asValue[v] {
@@ -306,12 +318,16 @@ func (c *fn) pointee(e ast.Expr) cx {
 		if id, ok := inner.(*ast.Ident); ok && c.isLocal(c.objOf(id)) {
 			return c.expr(inner)
 		}
-		c.fail(e, "address-of is only supported on composite literals and local variables")
+		if _, ok := inner.(*ast.SelectorExpr); ok && c.rootIdent(inner) != nil {
+			// &x.f.g handed to a callee that only reads it: the current value of the field
+			return c.expr(inner)
+		}
+		c.fail(e, "address-of is only supported on composite literals, local variables and field paths")
 	}
 	if c.kindOf(e) == kOpaque {
 		return c.expr(e)
 	}
-	if c.kindOf(e) != kPtr {
+	if c.kindOf(e) != kPtr && c.kindOf(e) != kNilable {
 		c.fail(e, "dereference of a value of type %s", types.TypeString(c.typeOf(e), nil))
 	}
 	if id, ok := e.(*ast.Ident); ok {
@@ -343,7 +359,7 @@ func (c *fn) pointee(e ast.Expr) cx {
 	if id, ok := e.(*ast.Ident); ok {
 		if o := c.objOf(id); c.isLocal(o) {
 			v := c.fresh(c.nameOf(o) + "_v")
-			c.regLocal(v, c.g.typ(resolve(o.Type(), c.sub).(*types.Pointer).Elem(), c.sub))
+			c.regLocal(v, c.g.ptrElemType(o.Type(), c.sub))
 			return cx{s: v, binds: []bnd{{v: v, term: "(ptr_val " + c.nameOf(o) + ")", obj: o}}}
 		}
 	}
@@ -358,7 +374,9 @@ func (c *fn) exprAs(e ast.Expr, want types.Type) cx {
 	wk := c.g.kind(want, c.sub)
 	if c.isNilExpr(e) {
 		switch wk {
-		case kPtr:
+		case kAny:
+			return cx{s: "ANil"}
+		case kPtr, kNilable:
 			return cx{s: "PNil"}
 		case kError:
 			return cx{s: "None"}
@@ -371,8 +389,37 @@ func (c *fn) exprAs(e ast.Expr, want types.Type) cx {
 		c.fail(e, "a value of a dropped type is needed")
 	}
 	ek := c.kindOf(e)
+	if wk == kAny && ek != kAny {
+		et := c.typeOf(e)
+		if tv, ok := c.info.Types[e]; ok && tv.Value != nil {
+			et = types.Default(tv.Type)
+		}
+		return c.lift([]cx{c.expr(e)}, func(v []string) string { return c.g.toAny(v[0], et, c.sub) })
+	}
 	if wk == kError && ek != kError {
 		return c.errorValue(e)
+	}
+	if c.g.isOpaqueIface(want, c.sub) && c.g.isOpaqueIface(c.typeOf(e), c.sub) {
+		et := c.typeOf(e)
+		if c.g.opaquePath(et, c.sub) != c.g.opaquePath(want, c.sub) || ek != wk {
+			if ek == kNilable && wk != kNilable {
+				// the non-nil content is needed
+				return c.lift([]cx{c.pointee(e)}, func(v []string) string {
+					return c.g.ifaceConv(v[0], et, want, c.sub, true)
+				})
+			}
+			return c.lift([]cx{c.expr(e)}, func(v []string) string { return c.g.ifaceConv(v[0], et, want, c.sub, false) })
+		}
+		return c.expr(e)
+	}
+	if wk == kNilable && ek == kIfaceFn && c.g.nilableIsFn(want, c.sub) {
+		return c.lift([]cx{c.expr(e)}, func(v []string) string { return "(PNew " + v[0] + ")" })
+	}
+	if wk == kNilable && ek != kNilable {
+		c.fail(e, "conversion of a concrete value to interface %s is not supported", types.TypeString(want, nil))
+	}
+	if wk == kOpaque && ek != kOpaque && c.g.isOpaqueIface(want, c.sub) {
+		c.fail(e, "conversion of a concrete value to interface %s is not supported", types.TypeString(want, nil))
 	}
 	if wk == kIfaceFn && ek != kIfaceFn {
 		c.fail(e, "conversion of a concrete value to interface %s is not supported", types.TypeString(want, nil))
@@ -419,7 +466,7 @@ func (c *fn) chain(op token.Token, es []ast.Expr) cx {
 	if o, isEq, ok := c.nilTest(es[0]); ok && isEq == (op == token.LOR) {
 		if _, has := c.views[o]; !has {
 			v := c.fresh(c.nameOf(o) + "_v")
-			c.regLocal(v, c.g.typ(resolve(o.Type(), c.sub).(*types.Pointer).Elem(), c.sub))
+			c.regLocal(v, c.g.ptrElemType(o.Type(), c.sub))
 			saved := c.saveViews()
 			c.views[o] = v
 			rest := c.chain(op, es[1:])
@@ -464,6 +511,26 @@ func (c *fn) binary(x *ast.BinaryExpr) cx {
 		return c.lift([]cx{c.expr(x.X), c.expr(x.Y)}, func(v []string) string { return "(" + v[0] + sym + v[1] + ")" })
 	case token.ADD, token.SUB, token.MUL:
 		return c.arith(x, x.Op, c.expr(x.X), c.expr(x.Y), c.typeOf(x))
+	case token.AND, token.OR, token.XOR, token.AND_NOT:
+		if c.kindOf(x) != kInt {
+			c.fail(x, "bit operator on a non-integer")
+		}
+		fnName := map[token.Token]string{token.AND: "Z.land", token.OR: "Z.lor", token.XOR: "Z.lxor", token.AND_NOT: "Z.ldiff"}[x.Op]
+		return c.lift([]cx{c.expr(x.X), c.expr(x.Y)}, func(v []string) string { return "(" + fnName + " " + v[0] + " " + v[1] + ")" })
+	case token.SHL, token.SHR:
+		if c.kindOf(x) != kInt {
+			c.fail(x, "shift of a non-integer")
+		}
+		tv, ok := c.info.Types[x.Y]
+		if !ok || tv.Value == nil || constant.Sign(tv.Value) < 0 {
+			c.fail(x, "shift by a non-constant count is not supported")
+		}
+		fnName := "Z.shiftl"
+		if x.Op == token.SHR {
+			fnName = "Z.shiftr"
+		}
+		c.g.note("integers are unbounded: << never overflows")
+		return c.lift([]cx{c.expr(x.X), c.expr(x.Y)}, func(v []string) string { return "(" + fnName + " " + v[0] + " " + v[1] + ")" })
 	case token.QUO, token.REM:
 		if c.kindOf(x) != kInt {
 			c.fail(x, "division on a non-integer")
@@ -524,7 +591,7 @@ func (c *fn) equality(x *ast.BinaryExpr) cx {
 	}
 	if c.isNilExpr(b) {
 		switch c.kindOf(a) {
-		case kPtr:
+		case kPtr, kNilable:
 			if id, ok := a.(*ast.Ident); ok {
 				o := c.objOf(id)
 				if c.isLocal(o) {
@@ -550,10 +617,27 @@ func (c *fn) equality(x *ast.BinaryExpr) cx {
 				return neg(c.lift([]cx{c.expr(a)}, func(v []string) string { return "(map_len " + eqb + " " + v[0] + " =? 0)" }))
 			}
 			c.fail(x, "comparison of a map with nil (nil and empty maps are one value; see option NilIsEmpty)")
+		case kAny:
+			return neg(c.lift([]cx{c.expr(a)}, func(v []string) string { return "(any_is_nil " + v[0] + ")" }))
 		case kOpaque:
 			c.fail(x, "comparison of an opaque value with nil (opaque pointers are assumed non-nil)")
 		}
 		c.fail(x, "comparison of a value of type %s with nil", types.TypeString(c.typeOf(a), nil))
+	}
+	if c.kindOf(a) == kAny || c.kindOf(b) == kAny {
+		anyT := c.typeOf(a)
+		if c.kindOf(a) != kAny {
+			anyT = c.typeOf(b)
+		}
+		both := c.kindOf(a) == kAny && c.kindOf(b) == kAny
+		av, bv := c.exprAs(a, anyT), c.exprAs(b, anyT)
+		if !both {
+			// one operand has a comparable concrete type: the comparison cannot panic
+			return neg(c.lift([]cx{av, bv}, func(v []string) string { return "(anyv_eqb " + v[0] + " " + v[1] + ")" }))
+		}
+		return neg(c.liftO([]cx{av, bv}, func(v []string) cx {
+			return cx{s: "(anyv_eq_opt " + v[0] + " " + v[1] + ")", opt: true}
+		}))
 	}
 	switch c.kindOf(a) {
 	case kString, kInt, kBool:
@@ -561,6 +645,13 @@ func (c *fn) equality(x *ast.BinaryExpr) cx {
 			c.fail(x, "comparison between different kinds")
 		}
 		return c.equal(x, c.expr(a), c.expr(b), c.typeOf(a), eq)
+	case kError:
+		for _, pair := range [][2]ast.Expr{{a, b}, {b, a}} {
+			if name, ok := c.sentinel(pair[1]); ok && c.kindOf(pair[0]) == kError {
+				return neg(c.lift([]cx{c.expr(pair[0])}, func(v []string) string { return "(err_same " + v[0] + " " + name + ")" }))
+			}
+		}
+		c.fail(x, "comparison of two errors neither of which is a package-level sentinel (var ErrX = errors.New(..))")
 	case kPtr:
 		// one side must be a package-level pointer variable
 		for _, pair := range [][2]ast.Expr{{a, b}, {b, a}} {
@@ -625,11 +716,30 @@ func (c *fn) index(x *ast.IndexExpr) cx {
 }
 
 func (c *fn) sliceExpr(x *ast.SliceExpr) cx {
-	if c.kindOf(x.X) != kString {
-		c.fail(x, "slicing is only supported on strings (the capacity of slices is not modelled)")
-	}
 	if x.Slice3 {
 		c.fail(x, "3-index slices are not supported")
+	}
+	if c.kindOf(x.X) == kSlice {
+		if x.Low == nil && x.High == nil {
+			return c.expr(x.X) // x[:] of a slice or an array
+		}
+		c.g.note(c.fi.label + ": a slice is re-sliced; the model takes its capacity to be its length (re-slicing beyond the length panics in the model, Go allows it up to the capacity)")
+		l := c.expr(x.X)
+		return c.liftO([]cx{l}, func(lv []string) cx {
+			lo, hi := cx{s: "0"}, cx{s: "(list_len " + lv[0] + ")"}
+			if x.Low != nil {
+				lo = c.expr(x.Low)
+			}
+			if x.High != nil {
+				hi = c.expr(x.High)
+			}
+			return c.liftO([]cx{lo, hi}, func(v []string) cx {
+				return cx{s: "(list_slice " + lv[0] + " " + v[0] + " " + v[1] + ")", opt: true}
+			})
+		})
+	}
+	if c.kindOf(x.X) != kString {
+		c.fail(x, "slicing a value of type %s is not supported", types.TypeString(c.typeOf(x.X), nil))
 	}
 	s := c.expr(x.X)
 	return c.liftO([]cx{s}, func(sv []string) cx {
@@ -662,6 +772,10 @@ func (c *fn) compositeLitOf(x *ast.CompositeLit, t types.Type) cx {
 	switch c.g.kind(t, c.sub) {
 	case kUnit:
 		return cx{s: "tt"}
+	case kTime:
+		if len(x.Elts) == 0 {
+			return cx{s: "time_zero"}
+		}
 	case kStruct:
 		n := t.(*types.Named)
 		r := c.g.record(n)
@@ -678,7 +792,11 @@ func (c *fn) compositeLitOf(x *ast.CompositeLit, t types.Type) cx {
 				ve = el
 			}
 			f := r.field(c.g, fname)
-			vals[fname] = c.exprAs(ve, f.typ)
+			if implementsError(n) && c.g.kind(f.typ, nil) == kString {
+				vals[fname] = c.msgOf(ve) // the message of an error struct: its text is not modelled
+			} else {
+				vals[fname] = c.exprAs(ve, f.typ)
+			}
 		}
 		var args []cx
 		for _, f := range r.fields {
@@ -693,7 +811,10 @@ func (c *fn) compositeLitOf(x *ast.CompositeLit, t types.Type) cx {
 		}
 		return c.lift(args, func(v []string) string { return "(" + r.ctor + " " + strings.Join(v, " ") + ")" })
 	case kSlice:
-		et := t.Underlying().(*types.Slice).Elem()
+		et := elemOf(t)
+		if arr, ok := t.Underlying().(*types.Array); ok && arr.Len() != int64(len(x.Elts)) {
+			c.fail(x, "array literal with fewer elements than its length")
+		}
 		var args []cx
 		for _, el := range x.Elts {
 			if _, ok := el.(*ast.KeyValueExpr); ok {
@@ -732,3 +853,27 @@ func (c *fn) compositeLitOf(x *ast.CompositeLit, t types.Type) cx {
 	c.fail(x, "composite literal of type %s is not supported", types.TypeString(t, nil))
 	return cx{}
 }
+
+// assertion checks a type assertion x.(T) on a value of type any with T of a
+// string / integer / boolean kind; it returns the GoLib function and the name
+// of the dynamic type.
+func (c *fn) assertion(x *ast.TypeAssertExpr) (string, string) {
+	if x.Type == nil {
+		c.fail(x, "type switches are not supported")
+	}
+	if c.kindOf(x.X) != kAny {
+		c.fail(x, "type assertion on a value of type %s (only values of type any are supported)", types.TypeString(c.typeOf(x.X), nil))
+	}
+	t := resolve(c.info.TypeOf(x.Type), c.sub)
+	switch c.g.kind(t, c.sub) {
+	case kString:
+		return "any_str", dynTypeName(t)
+	case kInt:
+		return "any_int", dynTypeName(t)
+	case kBool:
+		return "any_bool", dynTypeName(t)
+	}
+	c.fail(x, "type assertion to %s is not supported (only string, integer and boolean kinds)", types.TypeString(t, nil))
+	return "", ""
+}
+
